@@ -116,7 +116,7 @@ PROPERTIES = {
         "explanation": "R-SENTINEL on offset_labels, R-COPERMUTE, R-PAIRS, R-CODEWIDTH (per-slice offsets are added to intp codes)",
     },
     "C10": {
-        "rules": [M.rule_scantable, rule_stable, M.rule_promote, rule_pure, M.rule_kindmissing, M.rule_scanacc, M.rule_emptykernel, CD.rule_onesided, rule_scanmissing],
+        "rules": [M.rule_scantable, rule_stable, M.rule_promote, rule_pure, M.rule_kindmissing, M.rule_scanacc, M.rule_emptykernel, CD.rule_onesided, rule_scanmissing, M.rule_scanempty],
         "thorough": [selftest, seeded_regression],
         "technique": "registry constant-evaluation + scan table; stable-sort sites",
         "level_text": "Static: the three scan blueprints are consistent (operator identity, carried reduction, in-block scan), bfill is the "
